@@ -44,6 +44,8 @@ type Obligation struct {
 	Cover  bool // must be satisfiable (vacuity guard)
 	smtFile    string
 	allSolvers map[string]string
+	contract   *Contract
+	clause     *Clause
 }
 
 type ModelFn func(c *CallCtx) *Term
@@ -97,6 +99,8 @@ type Engine struct {
 	invokeTrace []string
 	tmplFuncs   map[int]*Term
 	byteRefs    map[int]bool
+	files       []*ContractFile
+	stubs       map[string]string
 	tmplPrecise func(c *CallCtx, text, data *Term) *Term
 	allocParent map[int]*Term // fresh allocation-counter symbol -> the counter it is >= to
 }
